@@ -45,6 +45,11 @@ def mapErr {α} (r : Res α) (f : String → String) : Res α :=
 @[simp] theorem bind_panic {α β} (s : String) (f : α → Res β) : ((Res.panic s : Res α) >>= f) = .panic s := rfl
 @[simp] theorem pure_eq {α} (a : α) : (pure a : Res α) = .ok a := rfl
 
+instance : LawfulMonad Res := LawfulMonad.mk'
+  (id_map := fun x => by cases x <;> rfl)
+  (pure_bind := fun _ _ => rfl)
+  (bind_assoc := fun x _ _ => by cases x <;> rfl)
+
 theorem bind_eq_ok {α β} {r : Res α} {f : α → Res β} {b : β} :
     (r >>= f) = .ok b ↔ ∃ a, r = .ok a ∧ f a = .ok b := by
   cases r <;> simp [Bind.bind, Res.bind]
@@ -54,6 +59,52 @@ theorem bind_isPanic {α β} {r : Res α} {f : α → Res β} :
   cases r <;> simp [Bind.bind, Res.bind, isPanic]
 
 end Res
+
+/-- Outcome of a function that cannot panic *by construction*: a value or a returned error. The leaf
+decoders of the payload parser live in this monad, so "they never panic" is a fact about their type. -/
+inductive Dec (α : Type) where
+  | ok (a : α)
+  | err (tag : String)
+  deriving Repr, DecidableEq, Inhabited
+
+namespace Dec
+
+@[inline] def bind {α β} (r : Dec α) (f : α → Dec β) : Dec β :=
+  match r with
+  | .ok a => f a
+  | .err t => .err t
+
+instance : Monad Dec where
+  pure := Dec.ok
+  bind := Dec.bind
+
+def map {α β} (f : α → β) (r : Dec α) : Dec β :=
+  match r with
+  | .ok a => .ok (f a)
+  | .err t => .err t
+
+instance : LawfulMonad Dec := LawfulMonad.mk'
+  (id_map := fun x => by cases x <;> rfl)
+  (pure_bind := fun _ _ => rfl)
+  (bind_assoc := fun x _ _ => by cases x <;> rfl)
+
+@[simp] theorem bind_ok {α β} (a : α) (f : α → Dec β) : (Dec.ok a >>= f) = f a := rfl
+@[simp] theorem bind_err {α β} (t : String) (f : α → Dec β) : ((Dec.err t : Dec α) >>= f) = .err t := rfl
+@[simp] theorem pure_eq {α} (a : α) : (pure a : Dec α) = .ok a := rfl
+
+theorem bind_eq_ok {α β} {r : Dec α} {f : α → Dec β} {b : β} :
+    (r >>= f) = .ok b ↔ ∃ a, r = .ok a ∧ f a = .ok b := by
+  cases r <;> simp [Bind.bind, Dec.bind]
+
+/-- Embedding into the three-outcome results. -/
+def toRes {α} : Dec α → Res α
+  | .ok a => .ok a
+  | .err t => .err t
+
+theorem toRes_ne_panic {α} (d : Dec α) (s : String) : d.toRes ≠ .panic s := by
+  cases d <;> simp [toRes]
+
+end Dec
 
 /-- Run `f` on every element, stopping at the first non-ok result (a Go `for … { if err … return }`). -/
 def Res.allM {α} (f : α → Res Unit) : List α → Res Unit
